@@ -1,5 +1,6 @@
 (* C17 — byte and file serialisation (statements; StoreProofs.v) *)
-From BS Require Import Prims BitsCore Search Store StoreProofs.
+From BS Require Import Prims BitsCore Search Store StoreProofs SerialProofs.
+From Coq Require Import String.
 Open Scope Z_scope.
 Theorem C17_bytes_window : forall data l o, 0 <= o -> 0 <= l -> o + l <= zlen data ->
   setbytes_with_truncation data (Some l) (Some o) = Ok (sub data o (o + l)).
@@ -14,8 +15,21 @@ Theorem C17_getbytes_whole_bytes_only : forall b, (zlen b mod 8 <> 0 -> bs_getby
 Proof. exact getbytes_spec. Qed.
 Theorem C17_chunk_constant_whole_bytes : TOFILE_CHUNK mod 8 = 0 /\ 0 < TOFILE_CHUNK.
 Proof. vm_compute. split; [reflexivity|reflexivity]. Qed.
+(* tofile(f) writes exactly tobytes(): for EVERY chunk size that is a positive multiple of 8 (so also at lengths that are exact
+   multiples of the chunk size), and in particular for the constant in the source (compared with the source on every run) *)
+Theorem C17_tofile_is_tobytes : forall b chunk, 0 < chunk -> chunk mod 8 = 0 -> tofile b chunk = Ok (tobytes b).
+Proof. exact tofile_eq_tobytes. Qed.
+Theorem C17_tofile_is_tobytes_at_the_real_chunk_size : forall b, tofile b TOFILE_CHUNK = Ok (tobytes b).
+Proof. exact tofile_real_chunk. Qed.
+Theorem C17_tobytes_of_concatenation : forall a b, zlen a mod 8 = 0 -> tobytes (a ++ b) = tobytes a ++ tobytes b.
+Proof. exact tobytes_app. Qed.
+Example C17_tofile_example : tofile (of01 "1011001110001111101"%string) 8 = Ok [179; 143; 160].
+Proof. vm_compute. reflexivity. Qed.
 Print Assumptions C17_bytes_window.
 Print Assumptions C17_bytes_window_rejects.
 Print Assumptions C17_file_window.
 Print Assumptions C17_getbytes_whole_bytes_only.
 Print Assumptions C17_chunk_constant_whole_bytes.
+Print Assumptions C17_tofile_is_tobytes.
+Print Assumptions C17_tofile_is_tobytes_at_the_real_chunk_size.
+Print Assumptions C17_tobytes_of_concatenation.
